@@ -1,11 +1,19 @@
 #!/bin/sh
-# run every claimed quick check on the current tree and validate manifest/evidence (developer helper)
+# run every claimed quick check on the current tree of /repo, regenerate MANIFEST.json and validate
+# manifest/evidence (developer helper).  Exit 0 only if every check exited 0 and every evidence file is the
+# record of a quiet run: evidence left behind by a run on a changed /repo is a record of THAT tree, not of
+# the unchanged one -- do not commit it.
 cd "$(dirname "$0")" || exit 2
 rc=0
+bad=""
 for id in $(python3 -c "import json;print(' '.join(sorted(json.load(open('registry.json'))['properties'])))"); do
-  ./check "$id" --tier quick | tail -1
-  [ $? -ne 0 ] && rc=1
+  out=$(./check "$id" --tier quick); r=$?
+  echo "$out" | tail -1
+  if [ $r -ne 0 ]; then rc=1; bad="$bad $id(rc=$r)"; fi
 done
-python3 -m vx.manifest
+python3 -m vx.manifest || rc=1
 python3-vt validate.py | tail -1
+python3-vt validate.py >/dev/null 2>&1 || rc=1
+python3 -m vx.cleancheck || rc=1
+[ -n "$bad" ] && echo "checks that did not exit 0:$bad -- evidence/ must not be committed from this state"
 exit $rc
